@@ -31,13 +31,13 @@ const c13P1 = `@0 = global i32 1
 @1 = constant i32 2
 @named = global i32* @0
 define i32 @f(i32, i32) !dbg !3 {
-  %3 = add i32 %0, %1
-  %4 = load i32, i32* @1
-  call void @g()
+  %3 = add i32 %0, SALTN
+  %4 = load i32, i32* @1, align SALTAL
+  call cc SALTCC void @g()
   %5 = mul i32 %3, %4, !md !1
   ret i32 %5
 }
-declare void @g()
+declare cc SALTCC void @g()
 !llvm.module.flags = !{!2}
 !n = !{!0, !1}
 !0 = !{i32 1}
@@ -57,7 +57,8 @@ $"c d" = comdat any
 @h = global half 0xH3C00
 @big = global i64 u0x8000000000000000
 @ce = global i8* getelementptr inbounds ([4 x i8], [4 x i8]* @str, i64 0, i64 1)
-define i32 @"f n"(i32 %"x y", %"t y"* %p) gc "my gc" {
+@"salt SALTN" = global i64 SALTN, section "sec SALTN", align SALTAL
+define cc SALTCC i32 @"f n"(i32 %"x y", %"t y"* %p) gc "my gc" {
 "en try":
   %"y z" = add nsw i32 %"x y", 1
   %q = getelementptr %"t y", %"t y"* %p, i32 0, i32 0
@@ -72,7 +73,7 @@ else:
 }
 attributes #0 = { "k y"="v \5C" }
 !n\20m = !{!0}
-!0 = !{!"s t\00", i32 7}
+!0 = !{!"s t\00", i32 7, !"salt SALTN"}
 `
 
 const c13P3 = `@0 = global i32 1
@@ -119,6 +120,17 @@ func c13K() *ir.Module {
 	return m
 }
 
+// c13salt is the execution counter of the worker: values that a process-wide cache could be keyed
+// by (calling-convention numbers, names, constants, alignments, strings) are derived from it, so
+// that such a cache is cold for them in EVERY explored schedule, not only in the first one.
+var c13salt int
+
+func c13salted(text string) string {
+	n := c13salt
+	r := strings.NewReplacer("SALTCC", fmt.Sprint(64+n%900), "SALTN", fmt.Sprint(n), "SALTAL", fmt.Sprint(1<<uint(n%7)))
+	return r.Replace(text)
+}
+
 type c13mod struct {
 	name  string
 	mk    func() *ir.Module
@@ -149,8 +161,8 @@ func c13generated() *ir.Module {
 }
 
 var c13mods = []c13mod{
-	{"P1-parsed-unnamed", func() *ir.Module { return c13parse(c13P1) }, true},
-	{"P2-parsed-named", func() *ir.Module { return c13parse(c13P2) }, true},
+	{"P1-parsed-unnamed", func() *ir.Module { return c13parse(c13salted(c13P1)) }, true},
+	{"P2-parsed-named", func() *ir.Module { return c13parse(c13salted(c13P2)) }, true},
 	{"P3-parsed-2funcs", func() *ir.Module { return c13parse(c13P3) }, true},
 	{"K1-constructed-never-printed", c13K, false},
 	{"K2-constructed-printed-once", func() *ir.Module { m := c13K(); _ = m.String(); return m }, true},
@@ -379,8 +391,9 @@ func c13expected(sc c13scenario) []string {
 
 func schedWorker(sc schedScenario, only []int) c13result {
 	res := c13result{Scenario: sc.Name, Bound: sc.Bound, RaceBuild: vhook.RaceEnabled}
-	want := sc.Want()
-	res.Threads = len(want)
+	c13salt = 0
+	res.Threads = len(sc.Want())
+	nexec := 0
 	rl := sched.NewRaceLog(os.Getenv("VERIF_RACELOG"))
 	outcomes := map[string]bool{}
 	seen := map[string]bool{}
@@ -394,6 +407,11 @@ func schedWorker(sc schedScenario, only []int) c13result {
 		res.Viols = append(res.Viols, c13viol{sig, d})
 	}
 	mk := func() ([]func(), func(vhook.Result, vhook.Trace)) {
+		// a new salt per execution: caches keyed by value are cold for this module's values. The
+		// sequential reference is computed AFTER the concurrent run, on a fresh identical module.
+		nexec++
+		c13salt = nexec
+		salt := nexec
 		fb, names := sc.Fresh()
 		got := make([]string, len(fb))
 		var bodies []func()
@@ -402,6 +420,8 @@ func schedWorker(sc schedScenario, only []int) c13result {
 			bodies = append(bodies, func() { got[k] = fb[k]() })
 		}
 		after := func(r vhook.Result, tr vhook.Trace) {
+			c13salt = salt
+			want := sc.Want()
 			d := c13replay{Scenario: sc.Name, Schedule: tr.Choice, Threads: tr.Thread}
 			if r.Deadlock {
 				d.What = "deadlock"
